@@ -3,6 +3,7 @@
     Decoders are total Gallina functions into [option] (None = the Go decoder returned an error).
     The hypotheses [blen _ < two63] say that the byte string fits a Go slice (len is an int64). *)
 From IBC Require Import Lib.Bytes Lib.Dec Codec.Abi Codec.AbiFacts Codec.Proto Codec.ProtoFacts.
+From IBC Require Import Codec.JsonUtf8 Codec.JsonEnc Codec.JsonDec Codec.JsonFacts.
 Local Open Scope N_scope.
 
 Definition ftpd_eqb_opt (o : option FTPD) (d : FTPD) : bool :=
@@ -69,6 +70,12 @@ Theorem C35_proto_generated_unmarshal_is_lenient :
 Proof. exact gogo_unmarshal_lenient. Qed.
 Print Assumptions C35_proto_generated_unmarshal_is_lenient.
 
+(** the strict pass is run with fuel = input length; no larger fuel changes its verdict (fuel never runs out) *)
+Theorem C35_proto_strict_pass_fuel_sufficient bz f :
+  (length bz <= f)%nat -> reject_unknown_aux f bz = reject_unknown bz.
+Proof. exact (reject_unknown_fuel_sufficient bz f). Qed.
+Print Assumptions C35_proto_strict_pass_fuel_sufficient.
+
 (** ** GMP packet data and acknowledgement (Solidity ABI) *)
 
 Theorem C35_abi_gmp_roundtrip d :
@@ -132,6 +139,49 @@ Theorem C35_packet_attestation_not_bytes32_refuted :
 Proof. exact abi_packet_att_short_path_refuted. Qed.
 Print Assumptions C35_packet_attestation_not_bytes32_refuted.
 
+(** ** JSON (encoding/json as used by MarshalPacketData / UnmarshalPacketData / GetBytes; JFTPD = the five
+    string fields; jres = JOk x | JNil (top-level null clears the interface) | JErr | JPanic | JOutOfFuel) *)
+
+Definition jftpd_of (d : FTPD) : JFTPD := mkJFTPD (f_denom d) (f_amount d) (f_sender d) (f_receiver d) (f_memo d).
+
+Theorem C35_json_roundtrip x : jvalid x = true -> json_unmarshal_ftpd (json_marshal_ftpd x) = JOk x.
+Proof. exact (c35_json_roundtrip x). Qed.
+Print Assumptions C35_json_roundtrip.
+
+(** the same statement on the record the ABI / protobuf theorems use *)
+Theorem C35_json_roundtrip_ftpd d :
+  jvalid (jftpd_of d) = true -> json_unmarshal_ftpd (json_marshal_ftpd (jftpd_of d)) = JOk (jftpd_of d).
+Proof. exact (c35_json_roundtrip (jftpd_of d)). Qed.
+Print Assumptions C35_json_roundtrip_ftpd.
+
+(** exact characterisation for ALL byte strings: every invalid UTF-8 byte comes back as U+FFFD *)
+Theorem C35_json_roundtrip_sanitized x : json_unmarshal_ftpd (json_marshal_ftpd x) = JOk (jsan x).
+Proof. exact (c35_json_roundtrip_sanitized x). Qed.
+Print Assumptions C35_json_roundtrip_sanitized.
+
+Theorem C35_json_roundtrip_invalid_utf8_refuted : exists x, json_unmarshal_ftpd (json_marshal_ftpd x) <> JOk x.
+Proof. exact c35_json_roundtrip_invalid_utf8_refuted. Qed.
+Print Assumptions C35_json_roundtrip_invalid_utf8_refuted.
+
+(** the decoder model is total and never runs out of fuel; on encoder outputs it hits no panic site *)
+Theorem C35_json_decode_total bz :
+  (exists x, json_unmarshal_ftpd bz = JOk x) \/ json_unmarshal_ftpd bz = JNil \/
+  json_unmarshal_ftpd bz = JErr \/ json_unmarshal_ftpd bz = JPanic.
+Proof. exact (c35_json_decode_total bz). Qed.
+Print Assumptions C35_json_decode_total.
+
+Theorem C35_json_decode_of_encode_defined x :
+  json_unmarshal_ftpd (json_marshal_ftpd x) <> JPanic /\
+  json_unmarshal_ftpd (json_marshal_ftpd x) <> JOutOfFuel /\
+  json_unmarshal_ftpd (json_marshal_ftpd x) <> JErr /\
+  json_unmarshal_ftpd (json_marshal_ftpd x) <> JNil.
+Proof. exact (c35_json_decode_of_encode_defined x). Qed.
+Print Assumptions C35_json_decode_of_encode_defined.
+
+Theorem C35_json_marshal_valid_utf8 x : valid_utf8 (json_marshal_ftpd x) = true.
+Proof. exact (c35_json_marshal_valid_utf8 x). Qed.
+Print Assumptions C35_json_marshal_valid_utf8.
+
 (** non-vacuity: concrete values meet the hypotheses and go through the codecs *)
 Definition C35_example : FTPD :=
   mkFTPD (B "transfer/channel-0/uatom") (B "340282366920938463463374607431768211456")
@@ -144,5 +194,7 @@ Example C35_nonvacuous :
    end) = true /\
   ftpd_eqb_opt (proto_decode_strict (proto_encode C35_example)) C35_example = true /\
   abi_decode_ftpd (B "garbage") = None /\
-  abi_decode_state_att (abi_encode_state_att 42 1700000000000000000) = Some (42, 1700000000000000000).
-Proof. vm_compute. auto. Qed.
+  abi_decode_state_att (abi_encode_state_att 42 1700000000000000000) = Some (42, 1700000000000000000) /\
+  jvalid c35_json_example = true /\
+  json_unmarshal_ftpd (json_marshal_ftpd c35_json_example) = JOk c35_json_example.
+Proof. vm_compute. repeat split; reflexivity. Qed.
